@@ -300,6 +300,19 @@ CONTRACTS += [
     Contract("ofxtools.Types:DateTime.unconvert",
              args=[dtinst(), DatetimeArg("value", aware=False)], call=meth("unconvert"),
              raises=[(ValueError, "True", "must")], props=["C09", "C10", "C11"]),
+    # the edges of the calendar (year 1, year 9999 up to the last microsecond): whatever is written is well-formed and
+    # denotes the instant; a value whose rounded instant does not exist (24:00 on 31 December 9999) may be refused
+    Contract("ofxtools.Types:DateTime.unconvert",
+             args=[dtinst(), OneOfArg("value", [datetime.datetime(9999, 12, 31, 23, 59, 59, us, tzinfo=tz_) for us in (0, 499, 999000, 999499, 999500, 999999)
+                                                for tz_ in (utils.UTC, datetime.timezone(datetime.timedelta(hours=-5)), datetime.timezone(datetime.timedelta(hours=14)))]
+                                      + [datetime.datetime(1, 1, 1, 0, 0, 0, us, tzinfo=utils.UTC) for us in (0, 500, 999999)]
+                                      + [datetime.datetime(y_, 6, 15, 12, 30, 45, 123456, tzinfo=utils.UTC) for y_ in (9, 99, 999, 1000)]
+                                      + [datetime.datetime.max.replace(tzinfo=utils.UTC), datetime.datetime.min.replace(tzinfo=utils.UTC)])],
+             call=meth("unconvert"),
+             ensures=[("C11-lexical", "spec.ofxdt.written_ok(result, True)"),
+                      ("valid-fields", "spec.ofxdt.fields_valid(spec.ofxdt.parse_written(result, True))")],
+             raises=[(OverflowError, "value.year == 9999 and value.microsecond >= 999500", "may")],
+             native_only=True, samples=120, notes="first and last representable instants", props=["C09", "C11", "C10"]),
     Contract("ofxtools.Types:DateTime.unconvert",
              args=[dtinst(), OneOfArg("value", [3, "20200101", 2.5, datetime.date(2020, 1, 1)])], call=meth("unconvert"),
              raises=[(TypeError, "True", "must")], props=["C09", "C10", "C11"]),
